@@ -90,10 +90,21 @@ theorem C19_copy_fresh_general (d : Val) (s : St) :
     ∀ i ∈ (copyValue d s).1.mutIds, (s.next ≤ i ∧ i < (copyValue d s).2.next) ∨ i ∈ d.opqIds :=
   (copyValue_spec d s).2.2
 
-/-- the copy is "identical to default" as a value, and making it writes to nothing -/
-theorem C19_copy_equal (d : Val) (s : St) :
+/-- the copy is "identical to default" as a value (`==`; for defaults without data-class instances — a Schema instance
+comes back as a plain dict of its items, `C19_copy_schema_instance`), and making it writes to nothing -/
+theorem C19_copy_equal (d : Val) (s : St) (hn : d.noInst = true) :
     (copyValue d s).1.veq d = true ∧ (copyValue d s).2.writes = s.writes :=
-  ⟨copyValue_veq d s, (copyValue_spec d s).2.1⟩
+  ⟨copyValue_veq d s hn, (copyValue_spec d s).2.1⟩
+
+/-- `copy_value` of a **Schema instance** (a dict subclass, schema.py): a new *plain dict* of its items, every item
+copied; of a DataClass instance (a plain object): the instance itself. -/
+theorem C19_copy_schema_instance (j c : Nat) (k0 : String) (ks : List String) (x0 : Val) (xs : List Val) (s : St) :
+    (copyValue (.node j (.inst c true) (k0 :: ks) (x0 :: xs)) s).1
+        = .node (copyList xs s).2.next .dict ks (copyList xs s).1
+    ∧ (copyValue (.node j (.inst c false) (k0 :: ks) (x0 :: xs)) s).1 = .node j (.inst c false) (k0 :: ks) (x0 :: xs) := by
+  constructor
+  · simp only [copyValue]
+  · simp [copyValue, Kind.copied, Kind.base]
 
 /-- `get_default`: plain default, shared-object factory, fresh-object factory alike hand out objects
 allocated by this very call (or the declared default's opaque objects). -/
@@ -340,9 +351,9 @@ theorem WF_proc {w : World} (h : WF w) (p : Proc) : WF { w with proc := p } :=
 theorem step_setattr (w : World) (r : Nat) (fname : String) (v : Val) :
     w.step (.setattr r fname v) =
       (match w.root r with
-       | some (.node i (.inst k) ks xs) =>
+       | some (.node i (.inst k b) ks xs) =>
            (match w.env[k]? with
-            | some d => ((setattrWrites d fname v (.node i (.inst k) ks xs)).foldl (fun w p => w.writeAll p.1 p.2) w, Outcome.ok)
+            | some d => ((setattrWrites d fname v (.node i (.inst k b) ks xs)).foldl (fun w p => w.writeAll p.1 p.2) w, Outcome.ok)
             | none => (w, Outcome.skip))
        | _ => (w, Outcome.skip)) := rfl
 
@@ -801,7 +812,7 @@ theorem procOK_init (w : World) (h : w.proc = {}) : ProcOK w := by
 /-! ### `Schema.copy()` (fixed finding `copy-shares-dict`) -/
 
 def attrsId : Val → Option Nat
-  | .node _ (.inst _) _ (.node a .dict _ _ :: _) => some a
+  | .node _ (.inst _ _) _ (.node a .dict _ _ :: _) => some a
   | _ => none
 
 /-- after the fix a copy is a new instance with a new attribute dict; it shares only the field values -/
@@ -820,7 +831,7 @@ theorem C19_copy_owns_its_dict (v c : Val) (s s' : St) (h : schemaCopy v s = (.o
     omega
   · simp at h
 
-def instW : Val := .node 0 (.inst 0) ["__dict__", "a"] [.node 1 .dict ["a", "p"] [.int 1, .int 0], .int 1]
+def instW : Val := .node 0 (.inst 0 true) ["__dict__", "a"] [.node 1 .dict ["a", "p"] [.int 1, .int 0], .int 1]
 
 /-- the behaviour before the fix: the copy's attribute dict *is* the original's -/
 theorem C19_legacy_copy_alias_witness :
@@ -867,7 +878,7 @@ theorem C19_setattr_on_copy_isolated (w : World) (hw : WF w) (r : Nat) (v c : Va
     split
     · refine foldl_writeAll_last _ w.roots (fun p hp hin => ?_) _ _ rfl
       have hlt := hw.root_lt p.1 hin
-      rcases setattrWrites_targets _ fname x _ _ _ _ _ _ _ p hp with h | h <;> omega
+      rcases setattrWrites_targets _ fname x _ _ _ _ _ _ _ _ p hp with h | h <;> omega
     · exact ⟨_, rfl⟩
   · simp at hc
 
